@@ -154,7 +154,7 @@ ResamplePanicAllowed(r) ==
          [] OTHER -> MaxSpacingMayFail(v, r.n)
 
 Judge(r) ==
-    /\ ResamplePanicAllowed(r) \/ Sane(i, r)
+    /\ IF ResamplePanicAllowed(r) THEN TRUE ELSE Sane(i, r)
     /\ Ran(r) =>
         CASE r.op = "stations" -> JStations(r)
           [] r.op = "resample" -> JResample(r)
